@@ -508,7 +508,8 @@ int main(int argc, char **argv) {
     switch (r.below(6)) { case 0: groups = (int)r.range(1, 4); break; case 1: groups = (int)r.range(1, 40); break;
                           case 2: groups = (int)r.range(200, 1100); break; default: groups = (int)r.range(5, 300); break; }
     int n = groups * std::max(nc, 1);
-    int maxbits = r.chance(65) ? 10 : (r.chance(60) ? 16 : (r.chance(50) ? 20 : 32));
+    // 17/18: symbol values above 65535 that the raw scheme (<= 18 bits) still accepts
+    int maxbits = r.chance(55) ? 10 : (r.chance(45) ? 16 : (r.chance(45) ? (r.chance(50) ? 17 : 18) : (r.chance(50) ? 20 : 32)));
     uint32_t maxv = boundary_max(r, maxbits);
     if (maxbits == 32 && r.chance(50)) maxv = (uint32_t)(0x80000000ull + r.range(-3, 2));   // the 31/32-bit edge (D6)
     std::vector<uint32_t> s = gen_syms(r, kind, n, maxv);
